@@ -9,6 +9,7 @@ THEOREMS = {
     "C02": ("TrVerif.Props.C02", ["Tr.C02_partial", "Tr.C02_times", "Tr.C02_arrival", "Tr.C02_first_wait", "Tr.stepsOfLegs_transfer", "Tr.bestEgress_spec"]),
     "C06": ("TrVerif.Props.C06", ["Tr.C06_totals", "Tr.C06_route"]),
     "C07": ("TrVerif.Props.C07", ["Tr.C07_route_strings", "Tr.C07_accessibility_strings", "Tr.C07_enum_order", "Tr.C07_access"]),
+    "C09": ("TrVerif.Props.C09", ["Tr.C09_sound", "Tr.reverseNode_sound", "Tr.collectNodes_sorted", "Tr.collectNodes_mem"]),
     "C10": ("TrVerif.Props.C10", ["Tr.C10_alternatives"]),
     "C11": ("TrVerif.Props.C11", ["Tr.C11_connSet", "Tr.C11_restrict", "Tr.C11_answers", "Tr.C11_route"]),
     "C13": ("TrVerif.Props.C13", ["Tr.C13_history_independent", "Tr.C13_cache_kind_irrelevant", "Tr.C13_structure"]),
@@ -56,12 +57,17 @@ _reg("C02", "PROOF (all clauses, over the model): Tr.C02_partial - every ridden 
 for _pid, _what in (("C03", "earliest arrival (reference forward solver over all admissible journeys)"),
                     ("C04", "latest departure (reference backward solver)"),
                     ("C05", "latest departure for the reported arrival (reference backward solver from the reported arrival)"),
-                    ("C08", "set of reachable stops and earliest alighting time per stop (reference forward solver)"),
-                    ("C09", "set of usable stops and latest ready time per stop (reference backward solver)")):
-    _reg(_pid, "NO THEOREM (optimality proofs not reached; stated in DESIGN 0.1): " + _M + " in full; " + _what + " is recomputed for every generated "
-         "case by an independent brute-force reference and compared with the implementation's answer. This is testing of the property on generated "
-         "inputs, not a proof.",
+                    ("C08", "set of reachable stops and earliest alighting time per stop (reference forward solver)")):
+    _reg(_pid, "NO THEOREM for the optimality this property is about (proofs not reached; DESIGN 0.1). That the returned route is an executable itinerary within the limits is C01 / C02 "
+         "(proved). " + _M + " in full; " + _what + " is recomputed for every generated case by an independent brute-force reference and compared with the implementation's answer. "
+         "This is testing of the property on generated inputs, not a proof.",
          "differential correspondence with the Lean model + reference solver on generated inputs (no theorem)")
+_reg("C09", "PROOF (partial: soundness half): Tr.C09_sound - every stop an arrival-time accessibility answer lists is usable with the reported time: a chain of scheduled rides (boarding / "
+     "alighting permitted, changes by one footpath within the transfer maximum after the minimum waiting time) boards at that stop at nodeTime + minimum waiting and alights at a stop the "
+     "router offers, early enough to reach the place by the requested time; totalTravelTime = requested time - nodeTime <= max_travel_time; each stop once, ascending; totalNodeCount = "
+     "number of stops. NOT proved: that every usable stop is listed and that nodeTime is the LATEST such time (completeness of the reverse scan); that half is decided per answer by the "
+     "brute-force reference solver. " + _M + ".",
+     "Lean 4 theorem (soundness via the reverse-scan invariant) + differential correspondence + reference solver for completeness")
 _reg("C06", "PROOF (full, over the model): Tr.C06_totals - the clock chain and every total/identity of the property hold for every journey value the emission pass "
      "can produce; Tr.C06_route lifts it to every route returned on a well-formed dataset. " + _M + "; " + _O + ".",
      "Lean 4 theorem over the emission model + differential correspondence")
